@@ -3,8 +3,8 @@
 
 Only *data* is read here: the message-type numbers `_dispatch` compares against, the label / handler numbers
 the frame classifier of the server model mentions, the defaults of `ThreadPoolServer` (`nbThreads`,
-`requestBatchSize`), which server classes exist, and two measured facts about the live pool code (see
-`poolDropSparesNewcomer`, `poolCloseUnblocksWorkers`).  Everything that is control flow (the accept loop, the
+`requestBatchSize`), which server classes exist, and three measured facts about the live server code (see
+`poolDropSparesNewcomer`, `poolCloseUnblocksWorkers`, `acceptSurvivesTransientError`).  Everything that is control flow (the accept loop, the
 try/finally of `_authenticate_and_serve_client`, the pool's poller / worker catch-alls, `close()`) is modelled
 by hand in lean/RpycModel/Srv/Server.lean and tied to the code behaviourally by the C16 / C17 correspondence
 runs against the real servers, so that harmless rewrites of the code are not flagged.
@@ -124,6 +124,52 @@ def _close_unblocks_workers(server):
             pass
 
 
+def _accept_survives_transient_error(server):
+    """the live `Server.accept` on a listener stand-in whose accept() fails once - with EMFILE, then again with ECONNABORTED -
+    and then lets the loop end (it switches `active` off and reports a timeout): true iff accept() comes back normally both
+    times instead of raising EOFError (which `start()` takes for the end of the server)"""
+    import errno
+    import socket
+    import rpyc
+
+    class Listener(object):
+        def __init__(self, srv, e):
+            self.srv, self.e = srv, e
+
+        def accept(self):
+            if self.e is not None:
+                e, self.e = self.e, None
+                raise OSError(e, "injected")
+            self.srv.active = False
+            raise socket.timeout("no connection")
+
+    import logging
+    quiet = logging.getLogger("rpycverif.gen.silent")
+    if not quiet.handlers:
+        quiet.addHandler(logging.NullHandler())
+    quiet.propagate = False
+    out = []
+    for e in (errno.EMFILE, errno.ECONNABORTED):
+        try:
+            srv = server.ThreadedServer(rpyc.VoidService, hostname="127.0.0.1", port=0, auto_register=False, logger=quiet)
+        except OSError as ex:
+            raise Inexpressible("cannot instantiate ThreadedServer: %s" % ex)
+        real = srv.listener
+        try:
+            srv.listener = Listener(srv, e)
+            srv.active = True
+            try:
+                srv.accept()
+                out.append(True)
+            except EOFError:
+                out.append(False)
+            except Exception as ex:  # noqa
+                raise Inexpressible("Server.accept raised %r on an injected accept() error" % (ex,))
+        finally:
+            real.close()
+    return all(out)
+
+
 def gen_server():
     from rpyc.core import consts
     from rpyc.utils import server
@@ -168,6 +214,9 @@ def gen_server():
           "joins the workers - so that a worker blocked in a read on one of them comes back and can be joined?  Measured on",
           "the live `close()` with stand-in threads and one stand-in connection that record the order of events -/",
           "def poolCloseUnblocksWorkers : Bool := %s" % ("true" if _close_unblocks_workers(server) else "false")]
+    L += ["", "/-- does the accept loop survive an error from `accept()` that is neither EINTR / EAGAIN nor the listener being",
+          "gone (EMFILE, ECONNABORTED)?  Measured on the live `Server.accept` with a listener stand-in that fails once -/",
+          "def acceptSurvivesTransientError : Bool := %s" % ("true" if _accept_survives_transient_error(server) else "false")]
     L += ["", "end Rpyc.Gen.Srv", ""]
     return "\n".join(L)
 
